@@ -357,3 +357,53 @@ Definition C17_delete_restores_default_stmt : Prop :=
     /\ named_params (mk_nstate m None) = inr (map fst its)
     /\ get_named_params (mk_nstate m None) = inr its
     /\ get_num_dims (mk_nstate m None) = inr (length its).
+
+(** * Known findings and the necessity of the hypotheses, as refutations with witnesses *)
+(** known finding (pinned by the test test_set_global_params_for_side): a side-global
+    name such as "ipsi_spread" also sets the parameters of a SYMMETRIC group, which it
+    does not match: [names_consistent] fails and a parameter outside every declared
+    name changes *)
+Definition C17_side_global_leak_refuted_stmt : Prop :=
+  exists (b : bilateral) (n k : path) (q : Qc),
+    b_wf b = true /\ does_contain_in_order k n = false /\
+    option_map (fun ns => names_consistent (MBi b) ns [n]) (param_names (MBi b)) = Some false /\
+    let r := set_named_params (mk_nstate (MBi b) (Some [n])) [V q] [] in
+    snd r = inr tt /\
+    option_map (fun l => option_map qout (kw_get k l)) (param_items (MBi b)) = Some (Some (0, 1)%Z) /\
+    option_map (fun l => option_map qout (kw_get k l)) (param_items (ns_model (fst r))) = Some (Some (3, 10)%Z).
+(** known finding D8: HPVUnilateral ignores the names it reports *)
+Definition C17_hpv_named_refuted_stmt : Prop :=
+  exists (h : hpvmodel) (named : list path) (qs : list Qc),
+    (exists names, param_names (MHpv h) = Some names /\ incl named names) /\ NoDup named /\
+    length qs = length named /\ forallb in_unit qs = true /\
+    let r := set_named_params (mk_nstate (MHpv h) (Some named)) (vals qs) [] in
+    snd r = inr tt /\ out_res_items (get_named_params (fst r)) <> Some (out_items (combine named qs)).
+(** [no_ties] is needed: two equally specific names ("TtoII_spread", "ipsi_spread")
+    addressing one parameter: [set_params] gives priority to the edge name,
+    [get_named_params] attributes the parameter to the later name *)
+Definition C17_no_ties_needed_refuted_stmt : Prop :=
+  exists (b : bilateral) (named : list path) (qs : list Qc),
+    b_wf b = true /\ NoDup named /\ length qs = length named /\
+    option_map (fun ns => (names_consistent (MBi b) ns named, no_ties ns named, each_owns ns named)) (param_names (MBi b))
+      = Some (true, false, true) /\
+    let r := set_named_params (mk_nstate (MBi b) (Some named)) (vals qs) [] in
+    snd r = inr tt /\ out_res_items (get_named_params (fst r)) <> Some (out_items (combine named qs)).
+
+(** * Literal subsets of the parameter names *)
+(** every hypothesis above holds for them (Unilateral and Bilateral, in general) *)
+Definition C17_literal_subset_hyps_stmt : Prop :=
+  forall m named its, covered m = true -> param_items m = Some its -> incl named (map fst its) ->
+    names_consistent m (map fst its) named = true /\ no_ties (map fst its) named = true
+    /\ each_owns (map fst its) named = true /\ each_matches (map fst its) named = true.
+(** hence: the values go to exactly the declared parameters in declared order, every
+    other parameter keeps its value, get_named_params returns the vector and the
+    number of dimensions is the number of declared names *)
+Definition C17_literal_subset_roundtrip_stmt : Prop :=
+  forall m named qs s' its,
+    covered m = true -> param_items m = Some its -> NoDup named -> incl named (map fst its) ->
+    length qs = length named ->
+    set_named_params (mk_nstate m (Some named)) (vals qs) [] = (s', inr tt) ->
+    get_named_params s' = inr (combine named qs) /\ get_num_dims s' = inr (length named) /\
+    exists its', param_items (ns_model s') = Some its' /\ map fst its' = map fst its /\
+      (forall n q, In (n, q) (combine named qs) -> kw_get n its' = Some q) /\
+      (forall k old, In (k, old) its -> ~ In k named -> kw_get k its' = Some old).
